@@ -78,7 +78,7 @@ func judgeC11(sc *BatchSc, x *batchExec, br batchRun, fail string) Verdict {
 		}
 	}
 	if br.CtxErr == nil {
-		return bad("C11:harness", "context not cancelled")
+		return inconclusive("the scenario's cancellation point was not reached: context not cancelled")
 	}
 	if br.Err != nil && x.postCalls == 0 && !errors.Is(br.Err, br.CtxErr) {
 		// neither branch of the contract: no post, and the error does not match the context's
